@@ -1,7 +1,7 @@
-import Wx.Pure.Gen.Origins
-/-! C20: project origins and types over directory listings. -/
+/-! C20: project origins and types over directory listings — the SPECIFICATION side. Nothing here is generated: the
+    marker tables are the pinned, documented ones, so the model driver answers "what should `origins()` / `types()` return"
+    whatever the code's tables currently say. `Wx.Pure.OriginsThm` ties the tables regenerated from the source to these. -/
 namespace Wp
-open Wp.Gen
 
 inductive Node | file | dir | other deriving DecidableEq, Repr
 
@@ -13,73 +13,16 @@ def hasFile (l : Listing) (n : String) : Bool := kindOf l n == some .file
 def hasDir (l : Listing) (n : String) : Bool := kindOf l n == some .dir
 def present (l : Listing) (m : String × Bool) : Bool := if m.2 then hasDir l m.1 else hasFile l m.1
 
-/-- `check_list` -/
-def isOrigin (l : Listing) : Bool := !l.isEmpty && originMarkers.any (present l)
+/-- `check_list` over a marker table -/
+def isOriginWith (om : List (String × Bool)) (l : Listing) : Bool := !l.isEmpty && om.any (present l)
 
 /-- `origins(path)`: the path itself, then every parent; `chain` = listings from the path up to the root -/
-def origins (chain : List (String × Listing)) : List String :=
-  (chain.filter (fun d => isOrigin d.2)).map (·.1)
+def originsWith (om : List (String × Bool)) (chain : List (String × Listing)) : List String :=
+  (chain.filter (fun d => isOriginWith om d.2)).map (·.1)
 
-/-- `types(path)` -/
-def types (l : Listing) : List ProjectType :=
-  (typeMarkers.filter (fun m => present l (m.1, m.2.1))).map (·.2.2)
-
-/-! ### theorems -/
-
-/-- exactly the marked members of the chain, in order, nothing else — any chain length -/
-theorem origins_exact (chain : List (String × Listing)) (d : String) :
-    d ∈ origins chain ↔ ∃ l, (d, l) ∈ chain ∧ l ≠ [] ∧ ∃ m ∈ originMarkers, present l m = true := by
-  unfold origins isOrigin
-  simp only [List.mem_map, List.mem_filter, Bool.and_eq_true, Bool.not_eq_true', List.isEmpty_eq_false_iff,
-    List.any_eq_true]
-  constructor
-  · rintro ⟨⟨d', l⟩, ⟨hm, hne, hmk⟩, rfl⟩; exact ⟨l, hm, hne, hmk⟩
-  · rintro ⟨l, hm, hne, hmk⟩; exact ⟨(d, l), ⟨hm, hne, hmk⟩, rfl⟩
-
-theorem origins_sublist (chain : List (String × Listing)) : (origins chain).Sublist (chain.map (·.1)) := by
-  unfold origins
-  exact List.Sublist.map _ List.filter_sublist
-
-/-- the reported types are exactly those with a marker of the right node type present -/
-theorem types_exact (l : Listing) (t : ProjectType) :
-    t ∈ types l ↔ ∃ name isDir, (name, isDir, t) ∈ typeMarkers ∧ present l (name, isDir) = true := by
-  unfold types
-  simp only [List.mem_map, List.mem_filter]
-  constructor
-  · rintro ⟨⟨n, d, t'⟩, ⟨hm, hp⟩, rfl⟩; exact ⟨n, d, hm, hp⟩
-  · rintro ⟨n, d, hm, hp⟩; exact ⟨(n, d, t), ⟨hm, hp⟩, rfl⟩
-
-/-- a directory called like a file marker is not a marker -/
-example : types [("Cargo.toml", .dir)] = [] := by decide
-example : types [("Cargo.toml", .file), (".git", .dir)] = [.git, .cargo] := by decide
-
-/-- the documented table (transcribed by hand from the rustdoc of `ProjectType`) -/
-def documented : List (String × Bool × ProjectType) := [
-  (".bzr", true, .bazaar), (".bzrignore", false, .bazaar),
-  ("_darcs", true, .darcs),
-  (".fossil-settings", true, .fossil),
-  (".git", true, .git), (".git", false, .git), (".gitattributes", false, .git), (".gitmodules", false, .git),
-  (".hg", true, .mercurial), (".hgignore", false, .mercurial), (".hgtags", false, .mercurial),
-  (".svn", true, .subversion),
-  ("Gemfile", false, .bundler),
-  (".ctags", false, .c),
-  ("Cargo.toml", false, .cargo),
-  ("Dockerfile", false, .docker),
-  ("mix.exs", false, .elixir),
-  ("go.mod", false, .go), ("go.sum", false, .go),
-  ("build.gradle", false, .gradle),
-  ("package.json", false, .javaScript), ("cgmanifest.json", false, .javaScript),
-  ("project.clj", false, .leiningen),
-  ("pom.xml", false, .maven),
-  (".perltidyrc", false, .perl), ("Makefile.PL", false, .perl),
-  ("composer.json", false, .pHP),
-  ("requirements.txt", false, .pip), ("Pipfile", false, .pip),
-  ("v.mod", false, .v),
-  ("build.zig", false, .zig)]
-
-/-- the code's table and the documented one have the same rows -/
-theorem typeMarkers_documented :
-    (∀ m ∈ typeMarkers, m ∈ documented) ∧ (∀ m ∈ documented, m ∈ typeMarkers) := by decide
+/-- `types(path)` over a marker table -/
+def typesWith {α : Type} (tm : List (String × Bool × α)) (l : Listing) : List α :=
+  (tm.filter (fun m => present l (m.1, m.2.1))).map (·.2.2)
 
 /-- the recognised project markers (name, must be a directory), pinned by hand from the list in
     `origins()` at the time the properties were written: what "a recognised project marker" in C20
@@ -101,31 +44,22 @@ def recognised : List (String × Bool) := [
   ("CONTRIBUTING.md", false), ("go.mod", false), ("go.sum", false), ("Pipfile", false),
   ("build.zig", false)]
 
-/-- the code's marker list is the recognised one -/
-theorem originMarkers_recognised : originMarkers = recognised := by decide
 
-/-- every type marker also makes the directory an origin -/
-theorem typeMarkers_are_originMarkers : ∀ m ∈ typeMarkers, (m.1, m.2.1) ∈ originMarkers := by decide
+/-- the documented type markers (transcribed by hand from the rustdoc of `ProjectType`): name, must be a directory,
+    type name as the harness prints it -/
+def documentedS : List (String × Bool × String) := [
+  (".bzr", true, "bazaar"), (".bzrignore", false, "bazaar"), ("_darcs", true, "darcs"), (".fossil-settings", true, "fossil"),
+  (".git", true, "git"), (".git", false, "git"), (".gitattributes", false, "git"), (".gitmodules", false, "git"),
+  (".hg", true, "mercurial"), (".hgignore", false, "mercurial"), (".hgtags", false, "mercurial"), (".svn", true, "subversion"),
+  ("Gemfile", false, "bundler"), (".ctags", false, "c"), ("Cargo.toml", false, "cargo"), ("Dockerfile", false, "docker"),
+  ("mix.exs", false, "elixir"), ("go.mod", false, "go"), ("go.sum", false, "go"), ("build.gradle", false, "gradle"),
+  ("package.json", false, "javaScript"), ("cgmanifest.json", false, "javaScript"), ("project.clj", false, "leiningen"), ("pom.xml", false, "maven"),
+  (".perltidyrc", false, "perl"), ("Makefile.PL", false, "perl"), ("composer.json", false, "pHP"), ("requirements.txt", false, "pip"),
+  ("Pipfile", false, "pip"), ("v.mod", false, "v"), ("build.zig", false, "zig")]
 
-/-- classification agrees with the documentation -/
-theorem isVcs_documented : ∀ t ∈ ProjectType.all, isVcs t = (docClass t == "VCS") := by decide
-theorem all_complete (t : ProjectType) : t ∈ ProjectType.all := by cases t <;> decide
-
-/-- **the statement of C20's last sentence**: every project type is exactly one of version control /
-    software suite. (Before the repair of F11 the generated tables made this `false`: `Go` and `Zig`
-    were in neither list; a mutant that drops a type from `is_soft` or adds it to both makes the
-    `decide` below fail on the regenerated tables.) -/
-def exactlyOne : Bool := ProjectType.all.all (fun t => isVcs t != isSoft t)
-
-theorem exactlyOne_holds : exactlyOne = true := by decide
-
-theorem classified (t : ProjectType) : isVcs t ≠ isSoft t := by
-  have h := exactlyOne_holds
-  unfold exactlyOne at h
-  rw [List.all_eq_true] at h
-  simpa using h t (all_complete t)
-
-/-- the classification is the documented one for every type (doc comment says `VCS:` or `Soft:`) -/
-theorem isSoft_documented : ∀ t ∈ ProjectType.all, isSoft t = (docClass t == "Soft") := by decide
+/-- what C20 says `origins()` returns -/
+def originsDoc (chain : List (String × Listing)) : List String := originsWith recognised chain
+/-- what C20 says `types()` returns (type names) -/
+def typesDoc (l : Listing) : List String := typesWith documentedS l
 
 end Wp
